@@ -28,6 +28,28 @@ def ensure_deps():
                    check=False, stdout=subprocess.DEVNULL, stderr=subprocess.DEVNULL)
 
 
+def anchored_coverage(prop, line_cov):
+    """reach evidence: executed / total statements of the property's anchor files, as seen by worker 0 (1/16 of the cases)"""
+    try:
+        anchors = []
+        with open(os.path.join(HERE, "properties.jsonl")) as f:
+            for ln in f:
+                d = json.loads(ln)
+                if d["id"] == prop:
+                    anchors = d["anchors"]["files"]
+        out = {}
+        for a in anchors:
+            c = line_cov.get(a)
+            if c:
+                out[a] = {"statements": c["statements"], "executed": c["executed"], "not_executed_lines": c["missing"][:80]}
+            else:
+                out[a] = "not measured"
+        out["_note"] = "measured by coverage.py in worker 0 on a small leading slice of its cases only; evidence of reach, never a verdict"
+        return out
+    except Exception as e:
+        return {"error": repr(e)}
+
+
 def load_known():
     p = os.path.join(HERE, "known_findings.json")
     if not os.path.exists(p):
@@ -137,7 +159,10 @@ def check(prop, tier, seed, replay=None, repo=None, quiet=False):
     viol_by_key = C()
     per_case = collections.defaultdict(dict)
     hashseeds = set()
+    line_cov = {}
     for r in results:
+        if r.get("line_coverage"):
+            line_cov = r["line_coverage"]
         clauses.update(r["clauses"]); clause_fail.update(r["clause_fail"]); classes.update(r["classes"])
         notes.update(r["notes"]); sensors.update(r["sensors"])
         for k, v in r["sets"].items():
@@ -261,6 +286,7 @@ def check(prop, tier, seed, replay=None, repo=None, quiet=False):
                                    **{k: sorted(v)[:60] for k, v in sets.items()},
                                    **{"n_" + k: len(v) for k, v in sets.items()}},
                 "sensors": dict(sensors),
+                "anchored_line_coverage": anchored_coverage(prop, line_cov),
                 "known_finding_hits": dict(known_hits),
                 "verdict": verdict,
                 "inconclusive_reasons": reasons,
